@@ -84,7 +84,9 @@ Record env := {
 }.
 
 Section Checker.
-  Context (strict : bool)      (* true: positions that cannot be typed are reported too (to measure coverage) *)
+  Context (infer : bool)       (* true: a local variable without declared type gets the type synthesised for its
+                                  initializer (what a compiler infers) instead of the recorded one *)
+          (strict : bool)      (* true: positions that cannot be typed are reported too (to measure coverage) *)
           (L : lang) (w : world) (cs : list cls) (topfuncs : list func)
           (topvars : list (nat * option ty * bool)) (kw : list nat).
 
@@ -322,7 +324,8 @@ Section Checker.
              end) off ps args false in
         match k with
         (* constants *)
-        | 9 => (TBot, [])
+        | 9 => (* BottomConstant(t): translated as a cast of the bottom value to t when t is recorded *)
+               (match nth_ty e 0 with Some _ => read_ty (nth_ty e 0) | None => TBot end, [])
         | 10 | 11 => (read_ty (nth_ty e 0), [])
         | 12 => (TOk tbool, [])
         | 13 => (TOk (TBuiltin (l_char L) false), [])
@@ -561,8 +564,13 @@ Section Checker.
                | s :: l' =>
                    match kind_of s with
                    | 6 => (* VarDecl *)
-                       let vt := match nth_ty s 0 with Some t => Some t | None => nth_ty s 1 end in
-                       let '(ti, ei) := match kids_of s with [x] => chk fu G (path ++ [i; 0]) vt x | _ => (TUnk, []) end in
+                       let vt0 := match nth_ty s 0 with Some t => Some t | None => if infer then None else nth_ty s 1 end in
+                       let '(ti, ei) := match kids_of s with [x] => chk fu G (path ++ [i; 0]) vt0 x | _ => (TUnk, []) end in
+                       let vt := match vt0, ti with
+                                 | Some t, _ => Some t
+                                 | None, TOk t => if infer then Some t else nth_ty s 1
+                                 | None, _ => nth_ty s 1
+                                 end in
                        let dup := if existsb (Nat.eqb (name_of_node s)) seen then [mkerr (path ++ [i]) 21] else [] in
                        let kwe := if existsb (Nat.eqb (name_of_node s)) kw then [mkerr (path ++ [i]) 22] else [] in
                        let G' := {| e_vars := (name_of_node s, vt, flag s 0) :: e_vars G; e_funcs := e_funcs G; e_cls := e_cls G;
@@ -641,7 +649,7 @@ Fixpoint abstract_funcs (fuel : nat) (cs : list cls) (t : ty) : list (func * lis
       end
   end.
 
-Definition check_program (strict : bool) (L : lang) (cn : list (nat * nat)) (bclasses : ctable) (bt : btable) (arr : option nat)
+Definition check_program (infer strict : bool) (L : lang) (cn : list (nat * nat)) (bclasses : ctable) (bt : btable) (arr : option nat)
            (kw : list nat) (p : node) : list err :=
   let cs := classes_of cn p in
   let w := world_of cs bclasses bt arr in
@@ -655,11 +663,11 @@ Definition check_program (strict : bool) (L : lang) (cn : list (nat * nat)) (bcl
        match kind_of d with
        | 6 => (* top-level variable *)
            let '(ti, ei) := match kids_of d with
-                            | [x] => chk strict L w cs topfuncs topvars kw fuel (fresh_env None []) [i; 0] (match nth_ty d 0 with Some t => Some t | None => nth_ty d 1 end) x
+                            | [x] => chk infer strict L w cs topfuncs topvars kw fuel (fresh_env None []) [i; 0] (match nth_ty d 0 with Some t => Some t | None => nth_ty d 1 end) x
                             | _ => (TUnk, []) end in
            ei ++ (chk_assign strict w ti ((match nth_ty d 0 with Some t => Some t | None => nth_ty d 1 end)) ([i]) 1)
               ++ (if existsb (Nat.eqb (name_of_node d)) kw then [mkerr ([i]) 22] else [])
-       | 4 => chk_func strict L w cs topfuncs topvars kw fuel (fresh_env None []) [i] d false
+       | 4 => chk_func infer strict L w cs topfuncs topvars kw fuel (fresh_env None []) [i] d false
               ++ (if existsb (Nat.eqb (name_of_node d)) kw then [mkerr ([i]) 22] else [])
        | 1 => (* class *)
            let cl := mk_cls cn d in
@@ -681,7 +689,7 @@ Definition check_program (strict : bool) (L : lang) (cn : list (nat * nat)) (bcl
                                         (if Nat.eqb (length (kids_of s)) (length fts) then [] else [mkerr ([i; j]) 13]) ++
                                         flat_map (fun ka =>
                                                     let '(k, (a, ft)) := ka in
-                                                    let '(ta, ea) := chk strict L w cs topfuncs topvars kw fuel G [i; j; k] ft a in
+                                                    let '(ta, ea) := chk infer strict L w cs topfuncs topvars kw fuel G [i; j; k] ft a in
                                                     ea ++ (chk_assign strict w ta (ft) ([i; j; k]) 4))
                                                  (combine (seq 0 (length (kids_of s))) (combine (kids_of s) fts))
                                       else [])
@@ -692,7 +700,7 @@ Definition check_program (strict : bool) (L : lang) (cn : list (nat * nat)) (bcl
                          | None => []
                          end
                        else if Nat.eqb (kind_of s) kFuncDecl then
-                         chk_func strict L w cs topfuncs topvars kw fuel G [i; j] s false
+                         chk_func infer strict L w cs topfuncs topvars kw fuel G [i; j] s false
                        else [])
                     (combine (seq 0 (length (kids_of d))) (kids_of d)) ++
            (* a regular class implements every inherited abstract function *)
